@@ -2,6 +2,7 @@ package bed
 
 import (
 	"bufio"
+	"crypto/tls"
 	"encoding/base64"
 	"fmt"
 	"net"
@@ -45,14 +46,19 @@ var tunnelCookie atomic.Int64
 
 // DialTunnelHTTP opens a raw RTSP-over-HTTP tunnel (GET half, then POST half with the same
 // session cookie) and returns a Peer that talks RTSP through it. The two underlying
-// connections are returned too (to observe whether the server closes them).
+// connections are returned too (to observe whether the server closes them, or to abort one);
+// on a TLS bed these are the TCP connections underneath the TLS ones the peer talks through.
 func (b *Bed) DialTunnelHTTP() (*Peer, net.Conn, net.Conn, error) {
 	host := net.JoinHostPort(b.IP, strconv.Itoa(b.Port))
 	cookie := fmt.Sprintf("bedtunnel-%d-%d", time.Now().UnixNano(), tunnelCookie.Add(1))
 	for attempt := 0; ; attempt++ {
-		get, err := net.DialTimeout("tcp", host, 3*time.Second)
+		rawGet, err := net.DialTimeout("tcp", host, 3*time.Second)
 		if err != nil {
 			return nil, nil, nil, err
+		}
+		get := rawGet
+		if b.Cfg.TLS != nil {
+			get = tls.Client(rawGet, ClientTLS())
 		}
 		fmt.Fprintf(get, "GET /stream HTTP/1.1\r\nHost: %s\r\nx-sessioncookie: %s\r\nAccept: application/x-rtsp-tunnelled\r\n\r\n", host, cookie)
 		br := bufio.NewReader(get)
@@ -70,13 +76,17 @@ func (b *Bed) DialTunnelHTTP() (*Peer, net.Conn, net.Conn, error) {
 		}
 		get.SetReadDeadline(time.Time{}) //nolint:errcheck
 		time.Sleep(20 * time.Millisecond) // the server registers the GET half after answering it
-		post, err := net.DialTimeout("tcp", host, 3*time.Second)
+		rawPost, err := net.DialTimeout("tcp", host, 3*time.Second)
 		if err != nil {
 			get.Close()
 			return nil, nil, nil, err
 		}
+		post := rawPost
+		if b.Cfg.TLS != nil {
+			post = tls.Client(rawPost, ClientTLS())
+		}
 		fmt.Fprintf(post, "POST /stream HTTP/1.1\r\nHost: %s\r\nx-sessioncookie: %s\r\nContent-Type: application/x-rtsp-tunnelled\r\nContent-Length: 32767\r\n\r\n", host, cookie)
 		tc := &tunnelConn{get: get, post: post, br: br}
-		return &Peer{N: tc, C: conn.NewConn(bufio.NewReader(tc), tc), Timeout: 5 * time.Second}, get, post, nil
+		return &Peer{N: tc, C: conn.NewConn(bufio.NewReader(tc), tc), Timeout: 5 * time.Second}, rawGet, rawPost, nil
 	}
 }
